@@ -218,7 +218,7 @@ def match_all_storms(
         # storm thru_epoch is not included; but the slice that goes
         # thru the thru_epoch is.
         storm_start_epoch = int(epoch[rain_start])
-        storm_thru_epoch = int(epoch[rain_stop])
+        storm_thru_epoch = int(epoch[rain_stop - 1] + (epoch[1] - epoch[0]))
         # On the other hand, heads are instantaneous values, so the
         # epoch of the end of the jump interval is the one to use.
         jump_start_epoch = int(epoch[jump_start])
@@ -368,7 +368,9 @@ def get_candidate_match_intervals(
     assert (
         rain_start == 0 or not is_raining[rain_start - 1]
     ), "No heavy rain just before slice"
-    assert not is_raining[rain_stop], "No heavy rain at end of slice"
+    assert rain_stop == len(is_raining) or not is_raining[rain_stop], (
+        "No heavy rain at end of slice"
+    )
     jump_indices = np.nonzero(jump_mask)[0]
     jump_start = jump_indices[0]
     jump_stop = jump_indices[-1] + 2
